@@ -626,10 +626,14 @@ void bufr_set_descriptor_afd( BufrDescriptor *bc, LinkedList *af_list )
    ListNode *node;
    AF_Definition  *afd;
    int       count, i;
-   int       blens[256];
+   int      *blens;
 
    i = 0;
    count = lst_count( af_list );
+/*
+ * as many lengths as there are nested 2 04 YYY operators: no fixed limit
+ */
+   blens = (int *)malloc( sizeof(int) * (count + 1) );
    node = lst_firstnode( af_list );
    while ( node )
       {
@@ -643,6 +647,7 @@ void bufr_set_descriptor_afd( BufrDescriptor *bc, LinkedList *af_list )
       bufr_free_afd( bc->afd );
       }
    bc->afd = bufr_create_afd( blens, count );
+   free( blens );
 
    i = 0;
    node = lst_firstnode( af_list );
